@@ -17,9 +17,10 @@ MANIFEST = {
             'compared share-by-share with thresha on real PRF outputs every run; list and array variants are compared.',
     'note': 'Trusted: Coq kernel+vm_compute; model coq/theories/PRSS.v tied to thresha by exact comparison for prime fields '
             '(all (m,t) with m<=6/7, batch sizes 0,1,2,5); extension/binary fields: abstract theorems + implementation oracle '
-            'only. The PRF is an oracle: theorems hold for every output table. np_pseudorandom_share_0 uses the PRF block of a '
-            'subset in reversed coefficient order compared with the list variant (both are valid zero sharings); the check '
-            'compares it against the model on the reversed block.',
+            'only. The PRF is an oracle: theorems hold for every output table. The array variant of the zero sharing used the '
+            'PRF block of a subset in reversed coefficient order (finding F-C15-1: list and array variants differed for t >= 2), '
+            'repaired in /repo by f8c83ff; the check now requires exact equality of the two variants and of both with the model. '
+            'An end-to-end part runs real handshakes in the simulator and checks the sharings made with the keys parties actually hold.',
     'technique': 'Coq proof (f_S as Lagrange basis polynomial; omitted terms vanish) + vm_compute correspondence on real PRF outputs',
 }
 
@@ -128,8 +129,11 @@ def run(ctx):
                         # array variant: PRF outputs shaped (n, d); block h used as coefficients of X^1..X^d
                         ztab2 = {S: thresha.PRF(keys[S], bound)(uci, (n, d)).tolist() for S in subsets}
                         exprs.append('zp_prss_zero %s %s %s' % (zlit(p), natlit(m), coq_tbl(
-                            [(S, list(reversed([int(v) for v in ztab2[S][h]]))) for S in subsets], lists=True)))
+                            [(S, [int(v) for v in ztab2[S][h]]) for S in subsets], lists=True)))
                         meta.append(('npzero', key, h, [npz[i][h] for i in range(m)]))
+                        if [npz[i][h] for i in range(m)] != zcol:
+                            ctx.violation('np-prss-zero-differs-from-list-variant p=%d m=%d t=%d' % (p, m, t),
+                                          {**key, 'h': h, 'list': zcol, 'np': [npz[i][h] for i in range(m)]})
                         if not interp_ok(p, xs, [npz[i][h] for i in range(m)], 2 * t, 0):
                             ctx.violation('np-prss-zero-not-degree-2t p=%d m=%d t=%d' % (p, m, t), {**key, 'h': h})
     ctx.log('evaluating %d model expressions' % len(exprs))
